@@ -129,6 +129,8 @@ def check_comp(chk, prog, summ, f, slot_comp, nullable):
         vals = set()
         for n, st in rets:
             v = n.get("val")
+            if v is not None:
+                v = nullness.resolve_conditional(v, st)
             sv = X.strip(v) if v is not None else None
             if sv is not None and sv.get("k") == "call" and X.callee_name(sv) and prog.fn(X.callee_name(sv)):
                 g = prog.fn(X.callee_name(sv))
@@ -136,8 +138,9 @@ def check_comp(chk, prog, summ, f, slot_comp, nullable):
                 args = sv["ch"][1:]
                 if len(args) >= 2 and nullness.rhs_nullness(st, args[0]) == "null" and nullness.rhs_nullness(st, args[1]) == "null" and len(g.params) >= 2:
                     sub = returns_under(g, {("null", "d%d" % g.params[0]["d"]), ("null", "d%d" % g.params[1]["d"])}, summ)
-                    for m, _ in sub:
-                        vals.add(X.const_val(m.get("val")) if m.get("val") is not None else "void")
+                    for m, st2 in sub:
+                        mv = nullness.resolve_conditional(m["val"], st2) if m.get("val") is not None else None
+                        vals.add(X.const_val(mv) if mv is not None else "void")
                     continue
             vals.add(X.const_val(v) if v is not None else "void")
         chk.ob("K1", f.name, "both-null", vals == {0}, loc=loc,
@@ -281,14 +284,16 @@ def check_dup(chk, prog, summ, f, nullable):
                 return True
         return False
 
-    def fresh_rhs(rhs):
+    def fresh_rhs(rhs, state=frozenset()):
         s = X.strip(rhs)
         if X.is_null_const(rhs):
             return True
         if s.get("k") == "call":
             return True
         if s.get("k") == "cond":
-            return fresh_rhs(s["ch"][1]) and fresh_rhs(s["ch"][2])
+            return fresh_rhs(s["ch"][1], state) and fresh_rhs(s["ch"][2], state)
+        if s.get("k") == "ref" and s.get("rk") == "local" and ("freshvar", s["d"]) in state:
+            return True           # a temporary that holds a fresh allocation (tmp = MALLOC(..); copy->f = tmp;)
         return False
 
     def transfer(state, n, blk):
@@ -305,12 +310,24 @@ def check_dup(chk, prog, summ, f, nullable):
                 b = X.strip(l["ch"][0])
                 if b.get("k") == "ref" and b.get("d") in result_vars and l["n"] in owned:
                     st = set(x for x in state if not (x[0] == "fresh" and x[1] == l["n"]))
-                    if fresh_rhs(n["ch"][1]):
+                    if fresh_rhs(n["ch"][1], state):
                         st.add(("fresh", l["n"]))
                     return frozenset(st)
             if l.get("k") == "ref" and l.get("d") in result_vars:
                 # (re)construction of the result object: every field is constructor-initialised
                 return frozenset(state) | frozenset(("fresh", fld) for fld in owned)
+            if l.get("k") == "ref" and l.get("rk") == "local":
+                st = set(x for x in state if not (x[0] == "freshvar" and x[1] == l["d"]))
+                if fresh_rhs(n["ch"][1], state) and not X.is_null_const(n["ch"][1]):
+                    st.add(("freshvar", l["d"]))
+                return frozenset(st)
+        if k == "decl":
+            st = set(state)
+            for dcl in n.get("decls", ()):
+                st.discard(("freshvar", dcl["d"]))
+                if dcl.get("init") is not None and fresh_rhs(dcl["init"], state) and not X.is_null_const(dcl["init"]):
+                    st.add(("freshvar", dcl["d"]))
+            return frozenset(st)
         return state
 
     bad = {}
